@@ -163,3 +163,13 @@ package ledger
 //@   at Ledger.saveBlock#1 assert old_trunk_block_leaves: $0 == pBlock && (pBlock != qBlock ==> !pBlock.InTrunk && len(pBlock.NextHash) == 0) && $1 == batchWrite
 //@   at Ledger.saveBlock#2 assert new_trunk_block_joins: $0 == qBlock && qBlock.InTrunk && $1 == batchWrite
 //@   at Ledger.saveBlock#3 assert fork_point_links_to_the_new_branch: $0 == splitBlock && splitBlock.InTrunk && splitBlock.NextHash == nextHash && $1 == batchWrite
+
+// The branch tips handed to a truncation are exactly the recorded tips that are
+// STRICTLY higher than the target (the target itself excluded): a tip at the target's
+// height is a sibling of the target, not something above it (C04).
+//@ macro recId(it, i) = substr(kvKeyAt(it, i), len(xldgpb.BranchInfoPrefix), len(kvKeyAt(it, i)))
+//@ macro recListed(it, i, tid, th) = len(kvKeyAt(it, i)) >= len(xldgpb.BranchInfoPrefix) + 1 && recId(it, i) != str(tid) && parseDec(str(kvValAt(it, i))) > th
+//@ func Ledger.GetBranchInfo
+//@   property C04
+//@   ensures only_strictly_higher_tips: result1 == nil ==> (forall j int :: 0 <= j && j < len(result0) ==> (exists i int :: 0 <= i && i < kvLen(it) && result0[j] == recId(it, i) && recListed(it, i, targetBlockid, targetBlockHeight)))
+//@   loop 1 invariant listed_so_far: sel(kvPos, it) >= 0 - 1 && (forall j int :: 0 <= j && j < len(result) ==> (exists i int :: 0 <= i && i <= sel(kvPos, it) && i < kvLen(it) && result[j] == recId(it, i) && recListed(it, i, targetBlockid, targetBlockHeight)))
